@@ -620,8 +620,11 @@ def rw_std_prefix(text, log):
     for i in range(len(st) - 3):
         if st[i][1] == 'std' and st[i + 1][1] == '::' and st[i + 2][1] in ('fs', 'io', 'cmp', 'thread') and st[i + 3][1] == '::' and st[i - 1][1] != '::':
             spans.append((st[i][2], st[i + 2][2], ''))
+        elif st[i][1] == 'std' and st[i + 1][1] == '::' and st[i + 2][1] == 'path' and st[i + 3][1] == '::' and st[i - 1][1] != '::':
+            # `std::path::Component` etc.: the path stand-ins (Path, PathBuf, Component) live at the crate root
+            spans.append((st[i][2], st[i + 3][3], ''))
     if spans:
-        log.append('R24 %d `std::` prefix(es) of fs/io/cmp/thread paths dropped' % len(spans))
+        log.append('R24 %d `std::` prefix(es) of fs/io/cmp/thread/path paths dropped' % len(spans))
         return _replace_spans(text, spans)
     return text
 
@@ -791,6 +794,22 @@ def find_anchor(st, anchor, lo, hi):
             starts = [i for i in hits if st[i - 1][1] in (';', '{', '}')]
             if len(starts) == 1:
                 hits = starts
+            elif len(starts) > 1:
+                # several statements begin with the anchor: the one on the main path (least nesting) wins when it is the only one there
+                def depth(i):
+                    d = 0
+                    for k in range(lo, i):
+                        if st[k][0] == 'punct':
+                            if st[k][1] in ('{', '(', '['):
+                                d += 1
+                            elif st[k][1] in ('}', ')', ']'):
+                                d -= 1
+                    return d
+                ds = [(depth(i), i) for i in starts]
+                m = min(d for d, _ in ds)
+                shallow = [i for d, i in ds if d == m]
+                if len(shallow) == 1:
+                    hits = shallow
         if len(hits) == 1:
             return hits[0], hits[0] + len(want) - 1
         last = 'anchor `%s` found %d times' % (alt, len(hits))
